@@ -38,7 +38,7 @@ TRUSTED = ['A1 float == real: the accuracy ENVELOPE for non-polynomial f under r
 ASSUMPTIONS = ['steps positive and geometric (generator contract); f finite at the evaluation points']
 NOT_DECIDED = ['the per-(method, n) relative accuracy envelope for general real-analytic f (a quantitative statement about IEEE '
                'arithmetic and adaptive step selection)']
-BOUNDED = []
+BOUNDED = ['integer-x: integer-typed x (4 concrete x, n = 1..3, all methods) compared with float x -- executed with the real numpy, not proved']
 QUANTIFIED = 'x, base step, all Taylor coefficients b_k (real / complex), the residual coefficients a_j: universally quantified; ' \
              '(method, n, order, richardson_terms, ratio) enumerated'
 
@@ -67,6 +67,7 @@ def enumerated(tier):
 def groups(tier):
     out = [('value[%s,n=%d]' % (m, n), ('value', m, n, o, t, r)) for (m, n, o, t, r) in grid(tier)]
     out.append(('zero-order', ('zero',)))
+    out.append(('integer-x', ('intx',)))
     return out
 
 
@@ -240,7 +241,23 @@ def run_zero():
     return {}
 
 
+def _int_cubic(x):
+    return x ** 3 - 2 * x ** 2 + 5 * x
+
+
+def run_intx():
+    from .common import integer_input_cases
+    xs = [3, np.int64(-2), np.array([1, 2, 5]), np.array([[1, -3], [2, 4]], dtype=np.int32)]
+    for n in (1, 2, 3):
+        integer_input_cases([('Derivative', _int_cubic, xs, dict(n=n))],
+                            lambda c: ['central', 'forward', 'backward', 'complex'] + (['multicomplex'] if n <= 2 else []),
+                            name_fmt='%s' + ',n=%d' % n)
+    return {}
+
+
 def run_group(args):
+    if args[0] == 'intx':
+        return run_intx()
     if args[0] == 'value':
         return run_value(*args[1:])
     return run_zero()
@@ -249,6 +266,9 @@ def run_group(args):
 def replay_case(ob):
     import re
     nm = ob['name']
+    mm = re.search(r'integer-x/(\w+),n=(\d+),(\w+):', nm)
+    if mm:
+        return dict(kind='common.intx', klass=mm.group(1), method=mm.group(3), n=int(mm.group(2)), f='cubic')
     mm = re.search(r'value\[(\w+),n=(\d+)\]/order=(\d+),terms=(\d+),ratio=([\d.]+)(,complex-valued-f)?', nm)
     if mm:
         return dict(kind='C01.poly', method=mm.group(1), n=int(mm.group(2)), order=int(mm.group(3)), terms=int(mm.group(4)),
